@@ -22,6 +22,11 @@ claim("C05", "Coq theorems (Props/C05.v) over Model/Retry.v, whose four policy m
 claim("C04", "Coq theorems (Props/C04.v) over Model/Retry.v: for a request not classified idempotent, in every environment, an attempt whose outcome is not unavailable / bootstrapping / read timeout / unprepared is the last event of the run and the client receives exactly that error (or the connection-lost error); the only error decisions that re-send such a request are those three. Tied by scripted requests through the real proxy for 180 statement kinds whose class is known by construction (QUERY texts incl. now()/counter/LWT/delete-by-index/unparseable/batches, EXECUTE of ids prepared through the proxy or unknown to it, BATCH with every order of up to three children of five child types, graph payloads) against every outcome class, with the backend's own log counting executions.",
       "Coq kernel, no axioms; classification of statement text is C06's subject (here the class is an input chosen by construction and compared with the proxy's behaviour); connection loss includes proxy-initiated idle close.")
 
+claim("C03", "Coq theorems (Props/C03.v) over Model/Frame.v (header codec and raw-frame forwarding as the reference library implements them): for every frame DecodeRawFrame accepts -- any version >= 3, direction, flag byte, opcode and any body bytes -- the bytes written when forwarding with another stream id equal the bytes received with bytes 2-3 replaced (request and response direction use the same function). Tied by end-to-end runs: generated QUERY/EXECUTE/BATCH/PREPARE frames (v3,v4,v5,DSEv1,DSEv2; tracing/custom-payload/warning/compressed flags; none/lz4/snappy) through two real proxy instances to a recording backend that answers with scripted raw frames of random flags and bodies; bytes compared in both directions and with the model's prediction; requests on the override path are judged by C12's predicate.",
+      "Coq kernel, no axioms; the header layout is the library's (modelled, differential-tested); compression is outside the model (bodies are opaque bytes, so the theorem covers compressed bodies too).")
+claim("C12", "Coq theorems (Props/C12.v) over Model/Override.v + Model/Codec.v: with no list nothing is ever re-encoded; SELECTs and requests with any other consistency are forwarded raw; a matching non-SELECT QUERY/EXECUTE/BATCH goes out as the reference layout of the same message (statement or id, result-metadata id, batch type and children, the whole option tail, the same custom payload, same flags) with only the consistency replaced and a length field equal to the body length. Tied by the same end-to-end runs as C03 against a proxy with a list and one without, the recording backend's bytes (decompressed by the harness) compared with the model's re-encoded body.",
+      "Coq kernel, no axioms; 'is a SELECT' for EXECUTE means the id's PREPARE went through this proxy instance (an id the proxy never saw is treated as a write by code and model: recorded assumption); custom payload maps with more than one entry are re-encoded in Go map order, so override cases use at most one entry; a request carrying the response-only warning flag is outside the theorem (flag_warning = false).")
+
 def chk(pid, c):
     return {"property_id": pid, "quick_cmd": "./check %s --tier quick" % pid, "thorough_cmd": "./check %s --tier thorough" % pid,
             "evidence_file": "/verif/evidence/%s.json" % pid, "replay_cmd_template": "./check %s --replay {path}" % pid,
